@@ -556,9 +556,13 @@ pub fn main(tier: Tier) -> i32 {
     let mut setups = vec![];
     for anchors in [false, true] {
         for outbound in [true, false] {
-            for (hd, cd) in [(6u16, 7u16), (20, 12)] {
+            // (6,7) and (20,12) inside the policy range; (2016,4) and (4,2016) on its two edges
+            for (hd, cd) in [(6u16, 7u16), (20, 12), (2016, 4), (4, 2016)] {
                 for alt in [false, true] {
-                    if tier == Tier::Quick && alt && hd == 20 {
+                    if tier == Tier::Quick && alt && hd != 6 {
+                        continue;
+                    }
+                    if alt && (hd == 2016 || cd == 2016) {
                         continue;
                     }
                     let mut v = SetupV::basic(anchors, outbound);
